@@ -632,8 +632,11 @@ class FlowIRExperimentConfiguration:
 
         if create_instance_files and (exists_manifest is False or update_instance_files is True):
             try:
-                with open(manifest_file, 'w') as f:
+                # VV: write a temporary file and then rename it so that the manifest is never left half-written
+                temp_file = manifest_file + '.tmp'
+                with open(temp_file, 'w') as f:
                     experiment.model.frontends.flowir.yaml_dump(self.manifestData, f)
+                os.rename(temp_file, manifest_file)
             except Exception as e:
                 out_errors.append(e)
 
@@ -678,14 +681,19 @@ class FlowIRExperimentConfiguration:
         This is version of FlowIR without any component replication
         """
         instance_file = os.path.join(self._conf_dir, 'flowir_instance.yaml')
-        with open(instance_file, 'w') as f:
-            primitive = self._unreplicated.instance(ignore_errors=True, inject_missing_fields=False,
-                                                    fill_in_all=False, is_primitive=True)
-            # primitive = experiment.model.frontends.flowir.FlowIR.compress_flowir(primitive)
-            pretty_primitive = experiment.model.frontends.flowir.FlowIR.pretty_flowir_sort(primitive)
+        primitive = self._unreplicated.instance(ignore_errors=True, inject_missing_fields=False,
+                                                fill_in_all=False, is_primitive=True)
+        # primitive = experiment.model.frontends.flowir.FlowIR.compress_flowir(primitive)
+        pretty_primitive = experiment.model.frontends.flowir.FlowIR.pretty_flowir_sort(primitive)
+
+        # VV: This file is rewritten after every DoWhile iteration. Write a temporary file and then rename it so that
+        #     a crash (or an exception while generating the contents) cannot leave a truncated instance file behind
+        temp_file = instance_file + '.tmp'
+        with open(temp_file, 'w') as f:
             experiment.model.frontends.flowir.yaml_dump(
                 pretty_primitive, f, sort_keys=False, default_flow_style=False
             )
+        os.rename(temp_file, instance_file)
 
     @property
     def configurationDirectory(self):
